@@ -292,6 +292,7 @@ func (tr *Trans) load(p Val, t types.Type) Val {
 		case AddrCell:
 			return tr.readCell(st, a.Key, t)
 		case AddrField:
+			tr.checkGuarded(a, false)
 			return tr.readField(st, a.structT(), a.fieldVar(), a.Base)
 		case AddrElem:
 			return tr.readElem(st, t, a.Base, a.Idx)
@@ -315,6 +316,7 @@ func (tr *Trans) storeTo(p Val, t types.Type, x Val) {
 			tr.writeCell(st, a.Key, t, x)
 			return
 		case AddrField:
+			tr.checkGuarded(a, true)
 			tr.writeField(st, a.structT(), a.fieldVar(), a.Base, x)
 			return
 		case AddrElem:
@@ -334,4 +336,44 @@ func (a *Addr) fieldVar() *types.Var { return a.FV }
 
 func newFieldAddr(structT types.Type, fv *types.Var, base Term) *Addr {
 	return &Addr{Kind: AddrField, Key: fieldKeyOf(structT, fv.Name()), Base: base, Field: fv.Name(), T: fv.Type(), ST: structT, FV: fv}
+}
+
+// checkGuarded emits the lock-discipline obligation for an access to a field declared `guarded_by` a mutex.
+func (tr *Trans) checkGuarded(a *Addr, write bool) {
+	g := tr.g
+	if !g.opts.Safety || g.dry > 0 || tr.curInstr == nil || a.ST == nil {
+		return
+	}
+	key := fieldKeyOf(a.ST, a.Field) // pkg.Type.field
+	for _, gb := range g.specs.Guarded {
+		if gb.Field != key {
+			continue
+		}
+		st, ok := under(a.ST).(*types.Struct)
+		if !ok {
+			return
+		}
+		mname := gb.Mutex[strings.LastIndex(gb.Mutex, ".")+1:]
+		for i := 0; i < st.NumFields(); i++ {
+			if st.Field(i).Name() != mname {
+				continue
+			}
+			mref := g.fr(tr.e, a.ST, mname, a.Base)
+			mode := "w"
+			if !write {
+				mode = "r"
+			}
+			held := g.lockHeld(tr.e, tr.st, st.Field(i).Type(), mref, mode)
+			wm0 := g.topTr.pre.get(tr.e, "$wm", SInt)
+			// objects created by this very function are not shared yet
+			goal := or(ge(a.Base, wm0), held)
+			ord := tr.ordinal("guarded", tr.curInstr)
+			what := "read"
+			if write {
+				what = "write"
+			}
+			tr.e.oblige(&Obl{Name: fmt.Sprintf("%s#guarded_by#%s-%d:%s", tr.label, what, ord, key), Kind: "guarded_by", Cond: tr.rc, Goal: goal,
+				Pos: tr.posOf(tr.curInstr), Fn: tr.label, Props: []string{"C17"}})
+		}
+	}
 }
